@@ -55,7 +55,7 @@ Proof.
   - destruct fuel as [|f]; [lia|]. destruct Hi as [Hsine [Hnew Hst]].
     cbn [lfind]. rewrite Hs. cbn [bind nonempty]. rewrite Hst. cbn [wrap_parent]. rewrite He, Hn, Hc.
     destruct toks as [|y toks']; [congruence|]. cbn [child_idx].
-    destruct (find_walk rl (Dict c' kvs) (y :: toks') p v Hw Hne f (Dict c' kvs) [] (fstr ++ br (dec_of_Z z))) as [F [HF Hat]];
+    destruct (find_walk rl (Dict c' kvs) (y :: toks') p v Hw Hne f (Dict c' kvs) [] s_root) as [F [HF Hat]];
       [cbn in *; lia|].
     rewrite HF. cbn [bind]. eexists. split; [reflexivity|].
     destruct Hat as [q [last [slot [_ [_ [_ [_ [_ [Hv Hr]]]]]]]]]. cbn [rebase f_val f_rest]. auto.
